@@ -113,9 +113,9 @@ def gen_case(rng, cfg, n, own=A.OWN, filt="all", legal=True):
             emit("chg %d" % rng.randrange(len(sim.types)))
         elif "d" in sim.types and r < 0.95:
             emit("daddr " + rng.choice(A.PEERS[:4] + ["000000000000r"]))
-        elif r < 0.97:
+        elif r < 0.97 and rng.random() < 0.12:
             emit("dchg")
-        elif r < 0.985:
+        elif r < 0.985 and rng.random() < 0.2:
             emit("lstop")
             emit("lstart")
         elif not legal:
